@@ -132,6 +132,20 @@ fn laws<T: Semilattice + Clone + PartialEq + std::fmt::Debug>(
     if a.clone().join(a.clone()) != *a {
         bad.push("idempotence");
     }
+    // convergence (C22_merge_order_and_duplication_irrelevant / C22_two_replicas_converge):
+    // in-place merges of the same set of states, reordered and duplicated, and
+    // from a different starting replica, end in the same state
+    let deliver = |start: &T, l: &[&T]| {
+        let mut s = start.clone();
+        for x in l {
+            s.merge((*x).clone());
+        }
+        s
+    };
+    let r1 = deliver(a, &[b, c]);
+    if r1 != deliver(a, &[c, b, c, b]) || r1 != deliver(b, &[a, c]) || r1 != deliver(c, &[c, a, b, a]) {
+        bad.push("convergence");
+    }
     for law in bad {
         run.fail(
             id,
